@@ -55,6 +55,15 @@ def occurs(seq, rate, indels, read, prefix):
 
 
 def gen_set(rng):
+    if rng.random() < 0.04:
+        # absolute error numbers on the adapter lengths for which (k / length) * length falls just below k in double
+        # arithmetic: index and one-by-one search must draw the same line (no indels: the spheres stay small)
+        prefix = rng.random() < 0.5
+        L = rng.choice([47, 49, 49, 94, 98])
+        kk = rng.choice([1, 2]) if L in (49, 98) else 3
+        kk = min(kk, 2)
+        specs = [dict(seq=rnd_seq(rng, L, "ACGT"), max_errors=kk, indels=False, name=f"a{i}") for i in range(2)]
+        return dict(prefix=prefix, specs=specs, absolute=True)
     prefix = rng.random() < 0.5
     nad = rng.randint(2, 6)
     equal = rng.random() < 0.5
